@@ -60,6 +60,12 @@ def execOp (g : Unit → List CPt × List CPt) (op : String) (args : List String
   | "fromstr" => opFromStr args
   | "tostr" => opToStr args
   | "json" => opJson args
+  | "jsonfile" =>
+    -- the file entry points read what the in-memory reader reads; a missing path or a directory is an error
+    match args with
+    | [codec, h, kind] =>
+      if kind == "missing" || kind == "dir" then "err" else opJson [codec, if h == "-" then "" else h]
+    | _ => "bad-op"
   | "tojson" => opToJson args
   | "elg" => opElg args
   | "ae" => opAe args
